@@ -51,9 +51,9 @@ PROPS = {
     "C08": P(["orswot", "mvreg", "mapmv", "mapor", "mapmm", "mapmo", "gcounter", "pncounter", "gset", "glist", "merkle", "list"], CONV_FP + ["*.reset"], quick=1000, streams=("structured",),
              extra_as=["each actor's ops delivered in issue order, otherwise arbitrary"] + MAP_AS),
     "C09": P(ALL_REPL, CONV_FP + ["*.reset"], quick=1000, streams=("structured",), extra_as=MAP_AS),
-    "C16": P(["vclock", "orswot", "list", "merkle", "lww", "mapmv", "mapor", "mapmm", "mapmo"], ["*.validate_op", "*.apply"] + API_GEN, quick=1000, streams=("structured", "malformed"), exact=["*.validate_op"],
+    "C16": P(["vclock", "orswot", "list", "merkle", "lww", "mapmv", "mapor", "mapmm", "mapmo", "gcounter", "pncounter", "gset", "maxreg", "minreg", "glist", "mvreg"], ["*.validate_op", "*.apply"] + API_GEN, quick=1000, streams=("structured", "malformed"), exact=["*.validate_op"],
              extra_as=["Map::validate_op violates this property on the unchanged tree: known finding K1"]),
-    "C17": P(["orswot", "lww", "mapmv", "mapor", "mapmm", "mapmo"], ["*.validate_merge", "*.apply", "*.merge"] + API_GEN, quick=1000, streams=("structured", "malformed"), exact=["*.validate_merge"],
+    "C17": P(["orswot", "lww", "mapmv", "mapor", "mapmm", "mapmo", "vclock", "gcounter", "pncounter", "gset", "maxreg", "minreg", "glist", "mvreg", "merkle"], ["*.validate_merge", "*.apply", "*.merge"] + API_GEN, quick=1000, streams=("structured", "malformed"), exact=["*.validate_merge"],
              extra_as=["Orswot::validate_merge rejects correct use of add_all: known finding K2"]),
     "C19": P(ALL_REPL, ["serde", "serde.op"], quick=1000, streams=("structured",), exact=["serde", "serde.op"],
              extra_tb=["serde derive + serde_json modelled by coq/model/Serde.v (JSON tree; integer map keys abstracted as KNum; 32-byte hashes as one number); tied to the real crates by comparing real serde_json output with enc/dec on every sampled state"],
@@ -74,7 +74,7 @@ PROPS = {
     "C11": P(["gcounter", "pncounter", "gset", "maxreg", "minreg", "lww"],
              ["gcounter.apply", "gcounter.merge", "gcounter.inc", "gcounter.inc_many", "gcounter.read",
               "pncounter.apply", "pncounter.merge", "pncounter.inc", "pncounter.dec", "pncounter.inc_many", "pncounter.dec_many", "pncounter.read",
-              "gset.*", "maxreg.*", "minreg.*", "lww.apply", "lww.merge", "lww.validate_op", "lww.validate_merge"],
+              "gset.*", "maxreg.*", "minreg.*", "lww.apply", "lww.merge", "lww.validate_op", "lww.validate_merge", "lww.new", "lww.default"],
              exact=["lww.validate_op", "lww.validate_merge"],   # C11_lww_conflict fixes the verdict
              extra_as=["LWWReg: markers are unique (the same marker is never written with two values) for the convergence clause"]),
     "C12": P(["list", "glist"], ["list.apply", "list.insert_index", "list.append", "list.delete_index", "list.read", "list.len", "list.position", "list.validate_op", "ident.*", "glist.apply", "glist.merge", "glist.read"],
